@@ -1,7 +1,7 @@
 #!/venv/bin/python
 """design_seeded.py — regenerates section 11 of DESIGN.md (between the SEEDED markers) from
 /verif/seeded/*/meta.json and /verif/seeded/results.json."""
-import json, re
+import json, re, re
 from pathlib import Path
 
 NOTES = {   # seeded changes that the checks missed when first evaluated, and what was strengthened
@@ -52,6 +52,10 @@ NOTES = {   # seeded changes that the checks missed when first evaluated, and wh
     "C04-m2": "missed at first (parser object reused across loads keeps the label table); C04 now assembles every text a second time on the same simulation (C13's reload check caught the twin C13-m1 from the start)",
 }
 
+def _clean(t):
+    return re.sub(r'[\x00-\x08\x0b\x0c\x0e-\x1f]', lambda m: '\\x%02x' % ord(m.group()), str(t))
+
+
 def main():
     seeded = Path("/verif/seeded")
     res = json.loads((seeded / "results.json").read_text()) if (seeded / "results.json").exists() else {}
@@ -66,7 +70,7 @@ def main():
                 kind = v.get("replay_kind") or ""
                 tag = "direct" if kind.startswith("property") else ("model≠impl" if "correspondence" in kind else kind)
                 caught.append(f"{p}: {sl} ({tag})")
-        summ = (m.get("summary") or "").replace("|", "/").replace("\n", " ")
+        summ = _clean((m.get("summary") or "").replace("|", "/").replace("\n", " "))
         summ = summ[:230] + ("…" if len(summ) > 230 else "")
         need = (m.get("needs_to_manifest") or "").replace("|", "/").replace("\n", " ")
         need = need[:200] + ("…" if len(need) > 200 else "")
